@@ -306,7 +306,8 @@ package pubsub
 // clearPeerFromTopicsState: the peer is in no topic afterwards, every other (topic, peer) pair is
 // untouched, one Leave notification per topic it was in.
 //@ func (*PubSub).clearPeerFromTopicsState
-//@   property C05 C13 C18
+//@   property C05 C13 C18 C12
+//@   safe
 //@   loop 1 step leave-notified-per-topic: calls((*PubSub).notifyLeave) - iter(calls((*PubSub).notifyLeave)) == ite(iter(has(p.topics, t, pid)), 1, 0) &&
 //@        (iter(has(p.topics, t, pid)) ==> lastarg((*PubSub).notifyLeave, 1) == t && lastarg((*PubSub).notifyLeave, 2) == pid)
 //@   requires rep: topicsRep(p)
